@@ -43,7 +43,7 @@ var c15Args = []string{"Hello", "Verify", "MailFrom", "RcptTo", "EnvelopeID", "A
 func c15Run(ctx *core.Ctx) {
 	maxLen := 3
 	if ctx.Thorough() {
-		maxLen = 4
+		maxLen = 5
 	}
 	ctx.Rule = fmt.Sprintf("scripted server advertising each of the 2^7 subsets of {8BITMIME,SIZE,REQUIRETLS,SMTPUTF8,DSN,AUTH,RRVS} (a different subset after Reset) x MAIL option subsets (2^6) and RCPT option subsets (2^3) (pairwise-sampled in quick, full product in thorough); all strings of length <=%d over {CR,LF,NUL,SP,'<','>','a'} in every string-typed argument (%v) incl. out-of-range enum values; the raw client->server tap is segmented per API call. Non-trivial: every case; distinct by case.", maxLen, c15Args)
 	ctx.Assumptions = []string{"each protocol step of the client is one Write on the transport (textproto.Cmd flushes per command)", "the message body written through Data() is not a command line"}
